@@ -21,6 +21,7 @@ RULE += " Refusals are also compared on each holding's own mark (price and the t
 RULE += ' 30% of the real-handler scripts use a market-neutral book (short q and long q at one price: market value exactly 0.0).'
 RULE += " Composite pf_sub_ahead: a valid direct Portfolio subscription at a time ahead of the broker clock (the portfolio's clock moves, the marks of its holdings do not), then a broker update in between - refused, and no holding of any portfolio re-marked."
 RULE += " 10% of the cases extend settings.SUPPORTED['CURRENCIES'] after the broker was built and query that currency (ValueError expected); negative marks arrive through a swapped data handler object in 40% of the neg_mark faults."
+RULE += ' Round 11: refusal kinds added: an order of quantity 0 for an unknown portfolio, a fill without a positive price in a held asset (often one that would close it), a request through the ExecutionHandler at an instant the broker refuses (must raise, ends the case).'
 ASSUMPTIONS = [
     'portfolio/broker clocks are not listed observables: a refused request may advance them',
     'an ExecutionHandler call is a composite (submit accepted, update refused) and is not judged as one request',
